@@ -759,8 +759,8 @@ where
 /// Calculate the singular value decomposition of the (weighted) matrix of
 /// model function values. Returns None if the matrix is unusable, i.e. if it
 /// contains non-finite values or if the decomposition does not converge to
-/// finite singular values. For usable matrices the result is the same as
-/// calling `svd(true,true)` on the matrix.
+/// finite singular values and singular vectors. For usable matrices the
+/// result is the same as calling `svd(true,true)` on the matrix.
 fn calculate_svd<ScalarType>(matrix: &DMatrix<ScalarType>) -> Option<SVD<ScalarType, Dyn, Dyn>>
 where
     ScalarType: Scalar + ComplexField + Copy,
@@ -777,6 +777,16 @@ where
     let max_niter = 1000 * matrix.nrows().min(matrix.ncols());
     let mut svd = SVD::try_new_unordered(matrix.clone(), true, true, eps, max_niter)?;
     if svd.singular_values.iter().any(|val| !val.is_finite()) {
+        return None;
+    }
+    // the singular vectors can contain NaN values although all singular
+    // values are finite, when intermediate results of the decomposition overflow
+    let is_finite = |factor: &Option<DMatrix<ScalarType>>| {
+        factor
+            .as_ref()
+            .is_some_and(|factor| factor.iter().all(|val| val.is_finite()))
+    };
+    if !is_finite(&svd.u) || !is_finite(&svd.v_t) {
         return None;
     }
     svd.sort_by_singular_values();
